@@ -249,20 +249,28 @@ class Gen:
         return {'N': self.num_expr, 'F': self.fn_atom, 'F2': self.fn2_atom, 'H': self.ho_atom}[t](env, d)
 
 
-GLOBALS = ['ga', 'gb', 'gc', 'gf', 'gg', 'gh', 'gk', 'gm']
+NUM_GLOBALS = ['gza', 'gzb', 'gzc', 'gzd']   # none of these (nor gzf1, gzf2, ...) is a unit or built-in when undefined
 
 
 def gen_history(r, shadowing=False, nsteps=None, faulty=False):
-    """list of statement ASTs (each one input); returns (steps, env)"""
+    """list of statement ASTs (each one input); returns (steps, env).
+    Number-valued globals may be reassigned (that is where late binding shows); function-valued globals get a fresh
+    name each: a global function redefined in terms of itself or of a later one recurses without bound
+    (stack overflow abort, C06's finding), which no history here may do."""
     g = Gen(r, shadowing)
     env = []
     steps = []
+    nfun = 0
     n = nsteps or r.randint(2, 6)
     for i in range(n):
         k = r.random()
         if k < 0.55 or not env:
             t = r.choice(['N', 'N', 'F', 'F', 'F2', 'H'])
-            name = r.choice(GLOBALS) if (shadowing or r.random() < 0.3) else GLOBALS[len(env) % len(GLOBALS)]
+            if t == 'N':
+                name = r.choice(NUM_GLOBALS)
+            else:
+                nfun += 1
+                name = 'gzf%d' % nfun
             e = g.any_of(t, env, 3)
             steps.append(setv(name, e))
             env = [(a, b) for a, b in env if a != name] + [(name, t)]
@@ -270,20 +278,20 @@ def gen_history(r, shadowing=False, nsteps=None, faulty=False):
             steps.append(g.num_expr(env, 3))
         else:
             # several statements in one input, with an assignment inside parentheses
-            a = setv(r.choice(GLOBALS[:3]), g.num_expr(env, 2))
+            a = setv(r.choice(NUM_GLOBALS), g.num_expr(env, 2))
             env = [(x, t) for x, t in env if x != a[1]] + [(a[1], 'N')]
             steps.append(seq(a, g.num_expr(env, 2)))
         if faulty and r.random() < 0.3:
             steps.append(r.choice([
                 bop('+', num(1), ('unit',)), idt('undefinedq'), application(num(3), par(('unit',))) or num(1),
-                ('appfn', par(num(3)), num(2)), bop('-', ('unit',), num(1)), seq(setv('ga', num(r.randint(10, 19))), idt('undefinedq')),
+                ('appfn', par(num(3)), num(2)), bop('-', ('unit',), num(1)), seq(setv('gza', num(r.randint(10, 19))), idt('undefinedq')),
                 application(idt('abs'), par(idt('abs'))), bop('*', par(fn('x', idt('x'))), par(fn('y', idt('y')))),
             ]))
     return steps, env
 
 
-BOUNDARY = [
-    # the design's reconnaissance example: parameters captured, globals late-bound
+BOUNDARY_RAW = [
+    # the reconnaissance example of the design: parameters captured, globals late-bound
     ['y = 10', 'f = (x: x + y)', 'y = 20', 'f 1'],
     ['f = (x: (y: x + y))', 'g = f 1', 'x = 100', 'g 2', '(f 3) 4', 'f 3 4'],
     ['(\\x. \\y. x - y) 7 2', '(x: y: x - y) 7 2', '(x => y => x - y) 7 2'],
@@ -305,6 +313,12 @@ BOUNDARY = [
     ['c = (x: y: z: x + y * z)', 'c 1 2 3', '((c 1) 2) 3', 'd = c 1 2', 'd 3'],
     ['s = (f: g: x: f x (g x))', 'kk = (x: y: x)', '(s kk kk) 7'],
 ]
+
+# one-letter names are units or constants when undefined (a = ampere, h = hour, tw = terawatt ...): the model has no
+# units, so the boundary programs use names that are unknown identifiers until assigned
+_REN = {'a': 'aq', 'b': 'bbq', 'f': 'fq', 'g': 'gq', 'h': 'hq', 'k': 'kq', 'c': 'cq', 'd': 'dq', 's': 'sq', 'kk': 'kkq', 'q': 'qq', 'tw': 'twq'}
+import re as _re
+BOUNDARY = [[_re.sub(r'[A-Za-z_][A-Za-z_0-9]*', lambda m: _REN.get(m.group(0), m.group(0)), t) for t in h] for h in BOUNDARY_RAW]
 
 
 def errcode(kind):
@@ -366,10 +380,10 @@ def check(c):
               'non-trivial = contains a lambda application or a variable use; distinct by program text')
     ok = c.proof(['C09'], extra_targets=['Extract/XEval.vo'])
     if c.tier == 'thorough' and ok:
-        c.thorough_proof(['C09'])
+        thorough_proof(c, ['C09'])
     r = c.rng
     run = Runner(c)
-    N = 400 if c.tier == 'quick' else 5000
+    N = 400 if c.tier == 'quick' else 20000
 
     # ------------------------------------------------------------------
     # (1) impl vs model on histories; history laws on the implementation alone
@@ -454,7 +468,7 @@ def check(c):
                         continue
                 e2 = replace_at(e, path, par(subst(x, par(arg), body)))
                 pairs.append((h[:si] + [e], h[:si] + [e2], x, arg, body, node))
-    if len(pairs) > (600 if c.tier == 'quick' else 8000):
+    if len(pairs) > (600 if c.tier == 'quick' else 30000):
         pairs = r.sample(pairs, 600 if c.tier == 'quick' else 8000)
     # python substitution vs the Coq subst used in the theorems
     sl = [sx([Sym('calc-subst'), x, to_sx(par(arg)), to_sx(body)]) for _, _, x, arg, body, _ in pairs]
@@ -494,7 +508,7 @@ def check(c):
     # ------------------------------------------------------------------
     # (3) let-substitution: g = e; uses of g   vs   uses of (e)
     lets = []
-    nl = 600 if c.tier == 'quick' else 8000
+    nl = 600 if c.tier == 'quick' else 30000
     for _ in range(nl):
         g = Gen(r)
         pre, env = gen_history(r, nsteps=r.randint(0, 3))
@@ -502,7 +516,7 @@ def check(c):
         e = g.any_of(t, env, 3)
         if assigns(e):
             continue
-        name = 'gz'
+        name = 'gzz'
         env2 = env + [(name, t)]
         uses = [g.num_expr(env2, 3) for _ in range(r.randint(1, 3))]
         if not any(name in idents(u) for u in uses):
